@@ -34,12 +34,14 @@ type Run struct {
 
 	CtxViolations []string
 	Rep           []string // state-machine events with begin/end markers (oracle of C08)
+	Brk           []string // all events plus the end of every cleanup function (oracle of C10)
 }
 
 func NewRun() *Run { return &Run{draws: []int{0}} }
 
 func (r *Run) ev(s string) {
 	r.Events = append(r.Events, s)
+	r.Brk = append(r.Brk, s)
 	if s == "UChk" || strings.HasPrefix(s, "(UAct") {
 		r.Rep = append(r.Rep, s)
 	}
@@ -477,6 +479,7 @@ func (p *Program) exec(t *rapid.T, s *Stmt, env []Val, r *Run) Val {
 		r.ev(fmt.Sprintf("(UReg %d)", s.Id))
 		t.Cleanup(func() {
 			r.ev(fmt.Sprintf("(URun %d)", s.Id))
+			defer func() { r.Brk = append(r.Brk, fmt.Sprintf("(URunEnd %d)", s.Id)) }()
 			p.exec(t, s.A, envc, r)
 		})
 		return p.exec(t, s.Next, env, r)
